@@ -200,6 +200,8 @@ type API struct {
 	MergeMerge func(a, b []byte) ([]byte, error)
 	Create     func(a, b []byte) ([]byte, error)
 	Equal      func(a, b []byte) bool
+	// Defaults assigns the package-level defaults and returns the function that puts the old ones back.
+	Defaults func(neg bool, limit int64) (restore func())
 }
 
 func snapOps[R ~[]byte](n int, op func(i int) map[string]*R, ptrs bool) string {
@@ -324,6 +326,11 @@ var V5 = API{
 	MergeMerge: jp.MergeMergePatches,
 	Create:     jp.CreateMergePatch,
 	Equal:      jp.Equal,
+	Defaults: func(neg bool, limit int64) func() {
+		on, ol := jp.SupportNegativeIndices, jp.AccumulatedCopySizeLimit
+		jp.SupportNegativeIndices, jp.AccumulatedCopySizeLimit = neg, limit
+		return func() { jp.SupportNegativeIndices, jp.AccumulatedCopySizeLimit = on, ol }
+	},
 }
 
 // Legacy is the staged root package (no options API: the With-options calls
@@ -360,6 +367,11 @@ var Legacy = API{
 	MergeMerge: jl.MergeMergePatches,
 	Create:     jl.CreateMergePatch,
 	Equal:      jl.Equal,
+	Defaults: func(neg bool, limit int64) func() {
+		on, ol := jl.SupportNegativeIndices, jl.AccumulatedCopySizeLimit
+		jl.SupportNegativeIndices, jl.AccumulatedCopySizeLimit = neg, limit
+		return func() { jl.SupportNegativeIndices, jl.AccumulatedCopySizeLimit = on, ol }
+	},
 }
 
 func ByName(n string) API {
@@ -578,6 +590,10 @@ func DrawPool(t *rapid.T, legacy bool) Pool {
 			m.Set(rapid.SampledFrom(m.Keys).Draw(t, "mnk"), ref.Null())
 		}
 		add(&p.Merges, spell(m, fmt.Sprintf("m%d", i)))
+	}
+	if gen.OneIn(t, 3, "badop") {
+		// a well-formed patch document that DecodePatch must reject (its rejection path has state of its own)
+		add(&p.Bad, []byte(rapid.SampledFrom([]string{`[{"op":"nop","path":"/a"}]`, `[{"op":"add","path":"/a"}]`, `[{"op":"move","path":"/a"}]`, `[{"op":"test","path":1}]`, `[{"op":"Add","path":"/a","value":1}]`}).Draw(t, "badoptext")))
 	}
 	nb := gen.Uniform(t, 0, 2, "nbad")
 	for i := 0; i < nb; i++ {
